@@ -45,6 +45,17 @@ let parse_kps rest =
     | [k; p] -> Some (n_ k, n_ p)
     | _ -> None) (split ';' rest)
 
+(* overload variants of one operation are the same model operation *)
+let norm tok =
+  let pre p = String.length tok >= String.length p && String.sub tok 0 (String.length p) = p in
+  let rest p = String.sub tok (String.length p) (String.length tok - String.length p) in
+  if pre "PR," then "P," ^ rest "PR,"
+  else if tok = "OX" then "O"
+  else if pre "Bi," then "B," ^ rest "Bi,"
+  else if pre "Bm," then "B," ^ rest "Bm,"
+  else tok
+let is_noop tok = tok = "Y" || tok = "Z" || (String.length tok >= 2 && String.sub tok 0 2 = "V,")
+
 let dary_op tok =
   match split ',' tok with
   | ["P"; k; p] -> TPush (n_ k, n_ p)
@@ -69,7 +80,7 @@ let addr_op tok =
 
 let radix_op tok =
   match split ',' tok with
-  | ["P"; k; p] | ["E"; k; p] -> RPush (n_of_hex k, n_ p)
+  | ["P"; k; p] | ["E"; k; p] | ["F"; k; p] | ["H"; k; p] | ["G"; k; p] -> RPush (n_of_hex k, n_ p)
   | ["T"] -> RTop
   | ["O"] -> RPop
   | ["W"] -> RSwap
@@ -94,7 +105,9 @@ let () =
         let st = ref ([], []) and outs = ref [] in
         let emit () = outs := show !st :: !outs in
         List.iter (fun tok ->
+          let tok = norm tok in
           if tok = "D" then (while size !st > 0 do st := tstep d rv !st TPop; emit () done)
+          else if is_noop tok then emit ()
           else begin
             (match dary_op tok with
              | TPop -> if size !st > 0 then st := tstep d rv !st TPop
@@ -117,7 +130,9 @@ let () =
         let st = ref ainit and outs = ref [] in
         let emit () = outs := show !st :: !outs in
         List.iter (fun tok ->
+          let tok = norm tok in
           if tok = "D" then (while size !st > 0 do st := astep d np rv !st APop; emit () done)
+          else if is_noop tok then emit ()
           else begin
             (match addr_op tok with
              | APop -> if size !st > 0 then st := astep d np rv !st APop
@@ -129,7 +144,7 @@ let () =
         print_endline (String.concat " " (List.rev !outs))
       | "radix" :: w :: sg :: rb :: toks ->
         let w = n_of_int (int_of_string w) and rb = n_of_int (int_of_string rb) and sg = sg <> "0" in
-        let ops = List.map radix_op toks in
+        let ops = List.map radix_op (List.filter (fun t -> t <> "Y" && t <> "Z") toks) in
         let outs = rrun w sg rb (rinit w rb) ops in
         print_endline (String.concat " " (List.map2 (fun op ((vals, num), sz) ->
           let body = match op with
